@@ -314,9 +314,9 @@ def sortable_schema(r, n):
         if kinds[i] == "u":
             mem = r.sample(tables, r.randint(1, min(3, len(tables))))
             info.append({"kind": "u", "decl": "union T%d { %s }" % (i, ", ".join("T%d" % j for j in mem)), "direct": False,
-                         "refs": list(mem), "sorted_members": [], "dep_sorted": [], "links": [("T%d" % j, j) for j in mem]})
+                         "refs": list(mem), "allrefs": list(mem), "sorted_members": [], "dep_sorted": [], "links": [("T%d" % j, j) for j in mem]})
             continue
-        fields, refs, smem, dsm, links = [], [], [], [], []
+        fields, refs, smem, dsm, links, allrefs = [], [], [], [], [], []
         if i in keyed: fields.append("k:int (key)")
         for fi in range(r.randint(0, 5)):
             dep = r.random() < 0.2
@@ -326,7 +326,7 @@ def sortable_schema(r, n):
             if c < p_sorted:
                 w = r.randrange(3)
                 if w == 2 and keyed:
-                    j = r.choice(keyed); ty = "[T%d]" % j
+                    j = r.choice(keyed); ty = "[T%d]" % j; allrefs.append(j)
                     if not dep: refs.append(j); links.append((name, j))
                 else:
                     ty = "[int]" if w == 0 else "[string]"
@@ -336,11 +336,11 @@ def sortable_schema(r, n):
                 ty = r.choice(["int", "[int]", "string", "[string]"])
             else:
                 j = r.randrange(n)
-                ty = "T%d" % j if r.random() < 0.5 else "[T%d]" % j
+                ty = "T%d" % j if r.random() < 0.5 else "[T%d]" % j; allrefs.append(j)
                 if not dep: refs.append(j); links.append((name, j))
             if dep: attrs.append("deprecated")
             fields.append("%s:%s%s" % (name, ty, " (%s)" % ", ".join(attrs) if attrs else ""))
-        info.append({"kind": "t", "decl": "table T%d { %s }" % (i, " ".join(f + ";" for f in fields)), "direct": bool(smem), "refs": refs,
+        info.append({"kind": "t", "decl": "table T%d { %s }" % (i, " ".join(f + ";" for f in fields)), "direct": bool(smem), "refs": refs, "allrefs": allrefs,
                      "sorted_members": smem, "dep_sorted": dsm, "links": links})
     order = r.sample(range(n), n)
     pos = {t: k for k, t in enumerate(order)}
@@ -350,6 +350,7 @@ def sortable_schema(r, n):
         d = dict(info[t]); d["name"] = "T%d" % t
         d["refs"] = [pos[j] for j in info[t]["refs"]]
         d["links"] = [(nm, pos[j]) for nm, j in info[t]["links"]]
+        d["allrefs"] = [pos[j] for j in info[t]["allrefs"]]
         types.append(d)
     return fbs, types
 
@@ -361,7 +362,8 @@ def sortable_stage(ctx, flatcc, rt):
     """which tables / unions get a recursive sorter, and what each sorter visits: random type graphs in random declaration orders through
     flatcc -a; the set of generated <T>_sort definitions must equal the model's markSortable (Sortable.lean: proved = reachability of a
     sorted vector, C16_sortable_*), every sorter must sort exactly its own non-deprecated `sorted` members and descend exactly into the
-    non-deprecated members whose type has a sorter; a sample is compiled and linked with every sorter called."""
+    non-deprecated members whose type has a sorter; a sample is compiled and linked with every sorter called. Every third graph is split
+    over two files (include): marks and sorter bodies must not depend on the file a type is declared in."""
     r = random.Random(ctx.seed * 131 + 16)
     nsch = 160 if ctx.quick() else 2500
     ncompile = 24 if ctx.quick() else 200
@@ -373,7 +375,7 @@ def sortable_stage(ctx, flatcc, rt):
     lines = ["sortable " + ";".join(("d" if t["direct"] else "-") + ":" + ",".join(str(x) for x in t["refs"]) for t in types) for _, _, types in cases]
     rc_m, out_m, err_m = run_parallel(FMODEL, lines, 8, timeout=600)
     fails, stats = [], {"sortable_schemas": 0, "sortable_types": 0, "sortable_marked": 0, "sortable_indirect_only": 0, "sortable_compiled": 0,
-                        "sortable_max_chain": 0}
+                        "sortable_max_chain": 0, "sortable_two_file_schemas": 0}
 
     def reach_spec(types):
         m = [t["direct"] for t in types]
@@ -389,16 +391,31 @@ def sortable_stage(ctx, flatcc, rt):
     def one(job):
         (si, fbs, types), mo = job
         d = os.path.join(ctx.work, "sg%d" % si); os.makedirs(d, exist_ok=True)
+        # every third graph is split over two files: the types reachable from a random one (through any member) go into an included
+        # schema; what is marked and what the sorters visit must not depend on the file a type is declared in
+        inc, split = set(), False
+        if si % 3 == 1 and len(types) > 1:
+            todo = [random.Random(ctx.seed * 7 + si).randrange(len(types))]
+            while todo:
+                x = todo.pop()
+                if x in inc: continue
+                inc.add(x); todo += types[x]["allrefs"]
+            split = len(inc) < len(types)
+        if split:
+            open(os.path.join(d, "sginc.fbs"), "w").write("namespace SG;\n" + "\n".join(t["decl"] for i, t in enumerate(types) if i in inc) + "\n")
+            fbs = 'include "sginc.fbs";\nnamespace SG;\n' + "\n".join(t["decl"] for i, t in enumerate(types) if i not in inc) + "\n"
         open(os.path.join(d, "sg.fbs"), "w").write(fbs)
-        rc, log = flatcc_generate(ctx, flatcc, os.path.join(d, "sg.fbs"), d, opts=("-a",))
+        rc, log = flatcc_generate(ctx, flatcc, os.path.join(d, "sg.fbs"), d, opts=("-a", "-r") if split else ("-a",))
+        if split: fbs = "// sg.fbs:\n" + fbs + "// sginc.fbs:\n" + open(os.path.join(d, "sginc.fbs")).read()
         if rc != 0: return ("gen", "flatcc rejects the generated schema: " + log[-300:], fbs, None)
         hdr = open(os.path.join(d, "sg_reader.h")).read()
+        if split: hdr += open(os.path.join(d, "sginc_reader.h")).read()
         got = {m.group(1): (m.group(2), m.group(3)) for m in SORTER_RE.finditer(hdr)}
         if not mo.startswith("ok ") or len(mo) != 3 + len(types):
             return ("model", "model output: " + mo[:80], fbs, None)
         marks = [c == "1" for c in mo[3:]]
         spec, rounds = reach_spec(types)
-        res = {"types": len(types), "marked": sum(marks), "indirect": sum(1 for t, m in zip(types, marks) if m and not t["direct"]), "rounds": rounds}
+        res = {"split": int(split), "types": len(types), "marked": sum(marks), "indirect": sum(1 for t, m in zip(types, marks) if m and not t["direct"]), "rounds": rounds}
         if spec != marks:
             return ("model", "model markSortable %s differs from plain reachability %s" % (mo[3:], "".join("01"[x] for x in spec)), fbs, res)
         have = [t["name"] in got for t in types]
@@ -448,7 +465,7 @@ def sortable_stage(ctx, flatcc, rt):
             stats["sortable_schemas"] += 1
             if res:
                 stats["sortable_types"] += res["types"]; stats["sortable_marked"] += res["marked"]; stats["sortable_indirect_only"] += res["indirect"]
-                stats["sortable_compiled"] += res.get("compiled", 0); stats["sortable_max_chain"] = max(stats["sortable_max_chain"], res["rounds"])
+                stats["sortable_compiled"] += res.get("compiled", 0); stats["sortable_two_file_schemas"] += res.get("split", 0); stats["sortable_max_chain"] = max(stats["sortable_max_chain"], res["rounds"])
             if kind: fails.append((kind, why, fbs))
     return stats, fails
 
